@@ -481,10 +481,26 @@ func TestC25(t *testing.T) {
 
 	var outMu sync.Mutex
 	outcomes := map[string]int64{}
-	var reported sync.Map
-	viol := func(key string, detail func() map[string]any) {
-		if _, dup := reported.LoadOrStore(key, true); !dup {
-			r.Violation(key, detail())
+	// violations: per finding key the smallest failing case (shortest beacon first) is kept and reported at the
+	// end, so that the reported example does not depend on goroutine scheduling
+	type c25Found struct {
+		rank   string
+		detail map[string]any
+		count  int64
+	}
+	var foundMu sync.Mutex
+	found := map[string]*c25Found{}
+	violRanked := func(key, rank string, detail func() map[string]any) {
+		foundMu.Lock()
+		defer foundMu.Unlock()
+		f := found[key]
+		if f == nil {
+			f = &c25Found{}
+			found[key] = f
+		}
+		f.count++
+		if f.detail == nil || rank < f.rank {
+			f.rank, f.detail = rank, detail()
 		}
 	}
 	var capped atomic.Bool
@@ -554,6 +570,10 @@ func TestC25(t *testing.T) {
 					nj = (lastIdx + 1) % len(pool)
 				}
 				ifID, neigh = c25IfID(in.lt, nj), pool[nj]
+			}
+			viol := func(key string, detail func() map[string]any) {
+				violRanked(key, fmt.Sprintf("%d/%04d/%s/%s/%v/%s", len(ias), si, in.name, svc.cfg.String(), !v.nextLocal,
+					v.sig.String()), detail)
 			}
 			detail := func() map[string]any {
 				return map[string]any{"config": svc.cfg.String(), "beacon": fmt.Sprint(ias), "ingress": in.name,
@@ -781,6 +801,20 @@ func TestC25(t *testing.T) {
 	})
 	if capped.Load() {
 		r.Capped("budget hit; sequences are processed in parallel, the remaining ones were skipped")
+	}
+	{
+		keys := []string{}
+		for k := range found {
+			keys = append(keys, k)
+		}
+		sort.Strings(keys)
+		vc := map[string]int64{}
+		for _, k := range keys {
+			found[k].detail["cases_with_this_finding"] = found[k].count
+			vc[k] = found[k].count
+			r.Violation(k, found[k].detail)
+		}
+		r.Extra["finding_case_counts"] = vc
 	}
 	r.CaseBulk(nCases.Load(), nStored.Load())
 	for k, v := range outcomes {
